@@ -26,6 +26,15 @@ func VerifDir() string {
 	return "/verif"
 }
 
+// OutDir is where evidence and replays are written (VERIF_OUT_DIR, default the
+// verification tree; self-validation runs against scratch copies redirect it).
+func OutDir() string {
+	if d := os.Getenv("VERIF_OUT_DIR"); d != "" {
+		return d
+	}
+	return VerifDir()
+}
+
 // Seed returns VERIF_SEED (default 1).
 func Seed() int64 {
 	if s := os.Getenv("VERIF_SEED"); s != "" {
@@ -200,7 +209,7 @@ func (r *Run) Finish() int {
 	r.mu.Lock()
 	defer r.mu.Unlock()
 	known := loadKnown(r.Prop)
-	replayDir := filepath.Join(VerifDir(), "replays", r.Prop)
+	replayDir := filepath.Join(OutDir(), "replays", r.Prop)
 	os.RemoveAll(replayDir)
 	unlisted := 0
 	knownHits := map[string]int{}
@@ -284,9 +293,9 @@ func (r *Run) Finish() int {
 		"property_id": r.Prop, "tier": r.Tier, "seed": r.SeedV, "level": r.Level,
 		"coverage": cov, "assumptions": r.Assumptions, "wall_s": wall, "violations": unlisted,
 	}
-	os.MkdirAll(filepath.Join(VerifDir(), "evidence"), 0o755)
+	os.MkdirAll(filepath.Join(OutDir(), "evidence"), 0o755)
 	b, _ := json.MarshalIndent(ev, "", " ")
-	os.WriteFile(filepath.Join(VerifDir(), "evidence", r.Prop+".json"), append(b, '\n'), 0o644)
+	os.WriteFile(filepath.Join(OutDir(), "evidence", r.Prop+".json"), append(b, '\n'), 0o644)
 	fmt.Printf("%s %s seed=%d: evaluations=%d distinct_nontrivial=%d violations=%d known=%d inconclusive=%d wall=%.1fs\n",
 		r.Prop, r.Tier, r.SeedV, r.evals, len(r.distinct), unlisted, len(knownHits), len(r.inconcl), wall)
 	if unlisted > 0 {
@@ -377,12 +386,28 @@ func (r *Run) RunChildren(spec ChildSpec) {
 			for j := range jobs {
 				lo := j.lo
 				for lo < j.hi {
+					// a broken tree fails again and again (and dead-locks cost a watchdog period
+					// each): once enough violations are on record the remaining cases add nothing
+					if r.violationCount() >= maxViolationsBeforeAbort {
+						r.noteAbort()
+						return
+					}
 					lo = r.runChild(spec, base, lo, j.hi)
 				}
 			}
 		}(p)
 	}
 	wg.Wait()
+}
+
+const maxViolationsBeforeAbort = 12
+
+func (r *Run) violationCount() int { r.mu.Lock(); defer r.mu.Unlock(); return len(r.violations) }
+
+func (r *Run) noteAbort() {
+	r.mu.Lock()
+	r.extra["aborted_early"] = fmt.Sprintf("stopped scheduling cases after %d violations", len(r.violations))
+	r.mu.Unlock()
 }
 
 // runChild runs cases [lo,hi) in one child; returns the next case to run.
